@@ -1,6 +1,7 @@
 """C06 - meta-events bracket every path: function / loop / return / yield brackets in the output templates; meta-name tables."""
 import ast
 
+from ..astq import facts_of
 from ..core import AnalysisError, norm, walk_local
 from ..xform import query as Q
 from ..xform.terms import (Copy, GenericVisit, Ident, In, InList, Lib, Node, Raise, Star, SymStr, Visit, children, walk)
@@ -279,13 +280,17 @@ def run(repo, chk):
     chk.ob("R06.6", "_standard_info:covers-tagged-meta-variables", tagged - {m for m in tagged if m.endswith("*")} <= set(info), si.where,
            f"every meta variable emitted with a tag ({sorted(tagged)}) has its annotation recorded (so tag selectors and verification can see it)")
     pr = repo.func("selector.Call.problems")
-    t = norm(pr.node)
-    chk.ob("R06.6", "selector.Call.problems:loop-prefixes", "x.name.startswith('#loop_') or x.name.startswith('#endloop_')" in t, pr.where,
+    fpr = facts_of(pr)
+    reports = [set(c) for t_, c, n in fpr.starting("problems.append(") if isinstance(n, ast.Call)]
+    chk.ob("R06.6", "selector.Call.problems:loop-prefixes", bool(reports) and not any("x.name.startswith('#endloop_') or x.name.startswith('#loop_')" in c for c in reports)
+           and any("not x.name.startswith('#loop_')" in c and "not x.name.startswith('#endloop_')" in c for c in reports), pr.where,
            "loop meta variables (#loop_v, #endloop_v) are accepted by prefix")
-    chk.ob("R06.6", "selector.Call.problems:unknown-hashvar-refused", "x.name not in _valid_hashvars" in t and "problems.append" in t, pr.where,
+    chk.ob("R06.6", "selector.Call.problems:unknown-hashvar-refused", any({"x.name not in _valid_hashvars", "x.name.startswith('#')"} <= c for c in reports), pr.where,
            "any other #name that is not documented is reported as a problem")
     loopfam = {m for m in emitted if m.endswith("*")}
     chk.ob("R06.6", "emitted:loop-families", loopfam == {"#loop_*", "#endloop_*"}, "ptera/transform.py (visit_For)", f"loop meta families emitted: {sorted(loopfam)}")
     fs = repo.func("overlay.fits_selector")
-    ok = any(isinstance(n, ast.If) and "not cap.name.startswith('#')" in norm(n.test) and "not in fvars" in norm(n.test) for n in walk_local(fs.node))
+    ff = facts_of(fs)
+    refusals = [set(c) for t_, c, n in ff.items if isinstance(n, ast.Return) and t_ == "return False" and "cap.name is not None" in c]
+    ok = bool(refusals) and all("not cap.name.startswith('#')" in c for c in refusals)
     chk.ob("R06.6", "overlay.fits_selector:hashvars-exempt", ok, fs.where, "meta variables are not required to be in the function's variable table when a selector level is fitted")
